@@ -164,6 +164,9 @@ def run(prop, tier, seed, replay=None):
                                           {"op": "create", "b": "B", "m": "m2"}, {"op": "insert", "b": "B"}, {"op": "delete_bucket", "b": "A"}, {"op": "insert", "b": "B"}]))
             hist += big
             rep.notes["large_bucket_histories"] = len(big)
+            fat = [("fat%d" % i, durable.concretise(durable.fat_abstract(rnd), rnd)) for i in range(2 if tier == "quick" else 12)]
+            hist += fat
+            rep.notes["large_payload_histories"] = len(fat)
         backends = ("sqlite", "peewee")
     else:
         hist = [("replay", replay["history"])]
